@@ -80,3 +80,179 @@ Proof.
   - apply vinto_option_map.
   - apply row_eqb_dec.
 Qed.
+
+(* ------------------------------------------------------------------ VecVariadic: get / drain / push *)
+From HV Require Import Coll.PVC.
+
+Lemma nth_error_zip_cons c : forall l i,
+  nth_error (zip_cons c l) i =
+  match nth_error l i, nth_error c i with
+  | Some r, Some x => Some (x :: r)
+  | _, _ => None
+  end.
+Proof.
+  induction c as [|x c IH]; intros l i.
+  - destruct l as [|r l], i as [|i]; cbn; try reflexivity. destruct (nth_error l i); reflexivity.
+  - destruct l as [|r l]; [destruct i; reflexivity|]. destruct i as [|i]; cbn; [reflexivity|apply IH].
+Qed.
+
+(* VecVariadic::get(index) is the index-th row of zip_vecs *)
+Lemma vec_get_zip cols i : cols <> [] -> vec_get cols i = nth_error (zip_cols cols) i.
+Proof.
+  induction cols as [|c [|c2 rest] IH]; intros ne; [congruence| |].
+  - cbn. rewrite nth_error_map. destruct (nth_error c i); reflexivity.
+  - rewrite zip_cols_cons, nth_error_zip_cons. cbn [vec_get] in *.
+    rewrite IH by discriminate. reflexivity.
+Qed.
+
+Lemma zip_cons_nil_r c : zip_cons c [] = [].
+Proof. destruct c; reflexivity. Qed.
+
+Lemma zip_cons_firstn n : forall c l, firstn n (zip_cons c l) = zip_cons (firstn n c) (firstn n l).
+Proof.
+  induction n as [|n IH]; intros c l; [reflexivity|].
+  destruct c as [|x c], l as [|r l]; cbn; try reflexivity;
+    try (rewrite zip_cons_nil_r; reflexivity). f_equal. apply IH.
+Qed.
+
+Lemma zip_cons_skipn n : forall c l, skipn n (zip_cons c l) = zip_cons (skipn n c) (skipn n l).
+Proof.
+  induction n as [|n IH]; intros c l; [reflexivity|].
+  destruct c as [|x c], l as [|r l]; cbn; try reflexivity;
+    try (rewrite zip_cons_nil_r; reflexivity). apply IH.
+Qed.
+
+Lemma zip_cons_app a : forall b l1 l2, length a = length l1 ->
+  zip_cons (a ++ b) (l1 ++ l2) = zip_cons a l1 ++ zip_cons b l2.
+Proof.
+  induction a as [|x a IH]; intros b [|r l1] l2 L; cbn in *; try lia; [reflexivity|].
+  rewrite IH by lia. reflexivity.
+Qed.
+
+Lemma map_single_firstn n (c : list N) :
+  firstn n (map (fun x => [x]) c) = map (fun x => [x]) (firstn n c).
+Proof. apply firstn_map. Qed.
+
+(* VecVariadic::drain(lo..hi): the drained rows are rows lo..hi of zip_vecs, the rest stays *)
+Lemma vec_drain_zip lo hi cols n :
+  cols <> [] -> rect n cols ->
+  let rows := zip_cols cols in
+  match vec_drain lo hi cols with
+  | Some (d, c') =>
+      lo <= hi /\ hi <= n /\
+      zip_cols d = firstn (hi - lo) (skipn lo rows) /\
+      zip_cols c' = firstn lo rows ++ skipn hi rows /\
+      d <> [] /\ c' <> [] /\ rect (hi - lo) d /\ rect (n - (hi - lo)) c'
+  | None => ~ (lo <= hi /\ hi <= n)
+  end.
+Proof.
+  induction cols as [|c [|c2 rest] IH]; intros ne R; [congruence| |]; cbn zeta.
+  - inversion R as [|? ? Lc _]; subst. cbn [vec_drain]. unfold col_drain.
+    destruct (Nat.leb_spec lo hi) as [L1|L1]; cbn [andb]; [|intros [? ?]; lia].
+    destruct (Nat.leb_spec hi (length c)) as [L2|L2]; [|intros [? ?]; lia].
+    cbn [zip_cols]. rewrite map_app, <- !firstn_map, <- !skipn_map.
+    repeat split; try lia; try discriminate.
+    + constructor; [|constructor]. rewrite firstn_length, skipn_length. lia.
+    + constructor; [|constructor]. rewrite app_length, firstn_length, skipn_length. lia.
+  - inversion R as [|? ? Lc R']; subst.
+    specialize (IH ltac:(discriminate) R'). cbn zeta in IH.
+    change (vec_drain lo hi (c :: c2 :: rest)) with
+      (match col_drain lo hi c, vec_drain lo hi (c2 :: rest) with
+       | Some (d, c'), Some (ds, rest') => Some (d :: ds, c' :: rest')
+       | _, _ => None
+       end).
+    unfold col_drain.
+    destruct (Nat.leb_spec lo hi) as [L1|L1]; cbn [andb];
+      [|destruct (vec_drain lo hi (c2 :: rest)) as [[? ?]|]; intros [? ?]; lia].
+    destruct (Nat.leb_spec hi (length c)) as [L2|L2];
+      [|destruct (vec_drain lo hi (c2 :: rest)) as [[? ?]|]; intros [? ?]; lia].
+    destruct (vec_drain lo hi (c2 :: rest)) as [[ds rest']|]; [|exfalso; apply IH; lia].
+    destruct IH as (_ & _ & Zd & Zc & ned & nec & Rd & Rc).
+    assert (LZ : length (zip_cols (c2 :: rest)) = length c)
+      by (apply zip_cols_length; [discriminate|assumption]).
+    destruct ds as [|d0 ds]; [congruence|]. destruct rest' as [|r0 rest']; [congruence|].
+    rewrite !zip_cols_cons, Zd, Zc.
+    rewrite zip_cons_skipn, zip_cons_firstn, zip_cons_firstn, zip_cons_skipn.
+    rewrite zip_cons_app by (rewrite !firstn_length; lia).
+    repeat split; try lia; try discriminate.
+    + constructor; [rewrite firstn_length, skipn_length; lia|assumption].
+    + constructor; [rewrite app_length, firstn_length, skipn_length; lia|assumption].
+Qed.
+
+(* the column store built by into_singleton_vec + push holds the rows, in order *)
+Lemma push_cols_repeat r : push_cols (repeat [] (length r)) r = singleton_cols r.
+Proof. induction r as [|x r IH]; cbn; [reflexivity|]. rewrite IH. reflexivity. Qed.
+
+Lemma cols_of_spec a rows :
+  0 < a -> Forall (fun r => length r = a) rows ->
+  zip_cols (cols_of a rows) = rows /\
+  (rows <> [] -> cols_of a rows <> [] /\ rect (length rows) (cols_of a rows)) /\
+  (rows = [] -> cols_of a rows = repeat [] a).
+Proof.
+  intros pa F. unfold cols_of.
+  assert (G : forall rs cols h, Forall (fun r => length r = a) rs ->
+              zip_cols cols = h /\ length cols = a /\ rect (length h) cols ->
+              let cols' := fold_left (fun cols r => push_cols cols r) rs cols in
+              zip_cols cols' = h ++ rs /\ length cols' = a /\ rect (length (h ++ rs)) cols').
+  { induction rs as [|r rs IH]; intros cols h Fr (Z & L & R); cbn zeta; cbn [fold_left].
+    - rewrite app_nil_r. auto.
+    - apply Forall_cons_iff in Fr as [Lr Fr'].
+      assert (ne : cols <> []) by (intros e; rewrite e in L; cbn in L; lia).
+      destruct (@push_cols_rect cols r (length h)) as [L' R']; [lia|assumption|].
+      change (h ++ r :: rs) with (h ++ [r] ++ rs). rewrite app_assoc. apply IH; [assumption|].
+      split; [|split].
+      + rewrite (@zip_push cols r (length h)); [rewrite Z; reflexivity|assumption|lia|assumption].
+      + lia.
+      + rewrite app_length. cbn [length]. exact R'. }
+  destruct (G rows (repeat [] a) [] F) as (Z & L & R).
+  { split; [|split].
+    - apply zip_all_empty, Forall_forall. intros c i. apply repeat_spec in i. exact i.
+    - apply repeat_length.
+    - apply Forall_forall. intros c i. apply repeat_spec in i. subst. reflexivity. }
+  cbn [app] in *. split; [exact Z|split].
+  - intros ne. split; [|exact R]. intros e. rewrite e in L. cbn in L. lia.
+  - intros ->. reflexivity.
+Qed.
+
+(* the VecVariadic part of the model observation equals the specification's *)
+Theorem variadic_vec_ops r r2 rows idx lo hi :
+  r <> [] -> Forall (fun x => length x = length r) rows ->
+  let m := model_vobs r r2 rows idx lo hi in
+  let s := spec_vobs r r2 rows idx lo hi in
+  o_vec_zip m = o_vec_zip s /\ o_vec_get m = o_vec_get s /\ o_vec_drained m = o_vec_drained s.
+Proof.
+  intros ne F. cbv zeta. unfold model_vobs, spec_vobs. cbn [o_vec_zip o_vec_get o_vec_drained].
+  assert (pa : 0 < length r) by (destruct r; [congruence|cbn; lia]).
+  destruct (cols_of_spec pa F) as (Z & NE & E).
+  split; [exact Z|].
+  assert (cne : cols_of (length r) rows <> []).
+  { destruct rows as [|x rows]; [rewrite E by reflexivity; destruct r; [congruence|discriminate]|].
+    apply NE. discriminate. }
+  split; [rewrite vec_get_zip by exact cne; rewrite Z; reflexivity|].
+  destruct rows as [|x rows].
+  - (* no rows: all columns empty *)
+    rewrite E by reflexivity. cbn [length].
+    assert (R0 : rect 0 (repeat [] (length r) : list (list N))).
+    { apply Forall_forall. intros c i. apply repeat_spec in i. subst. reflexivity. }
+    assert (ne0 : (repeat [] (length r) : list (list N)) <> []) by (destruct r; [congruence|discriminate]).
+    pose proof (@vec_drain_zip lo hi _ 0 ne0 R0) as D. cbn zeta in D.
+    assert (Z0 : zip_cols (repeat [] (length r) : list (list N)) = []).
+    { apply zip_all_empty, Forall_forall. intros c i. apply repeat_spec in i. exact i. }
+    rewrite Z0 in D.
+    destruct (vec_drain lo hi (repeat [] (length r))) as [[d c']|].
+    + destruct D as (L1 & L2 & Zd & Zc & _). rewrite Zd, Zc.
+      rewrite (proj2 (Nat.leb_le lo hi) L1), (proj2 (Nat.leb_le hi 0) L2). reflexivity.
+    + destruct (Nat.leb lo hi) eqn:E1; [|reflexivity]. destruct (Nat.leb hi 0) eqn:E2; [|reflexivity].
+      apply Nat.leb_le in E1, E2. exfalso. apply D. lia.
+  - destruct (NE ltac:(discriminate)) as [_ R].
+    pose proof (@vec_drain_zip lo hi _ _ cne R) as D. cbn zeta in D. rewrite Z in D.
+    destruct (vec_drain lo hi (cols_of (length r) (x :: rows))) as [[d c']|].
+    + destruct D as (L1 & L2 & Zd & Zc & _). rewrite Zd, Zc.
+      rewrite (proj2 (Nat.leb_le lo hi) L1). cbn [andb].
+      match goal with |- context [Nat.leb hi ?m] => destruct (Nat.leb_spec hi m) as [L3|L3] end;
+        [reflexivity|unfold row in *; cbn [length] in *; lia].
+    + destruct (Nat.leb lo hi) eqn:E1; [|reflexivity]. cbn [andb].
+      match goal with |- context [Nat.leb hi ?m] => destruct (Nat.leb_spec hi m) as [L3|L3] end;
+        [|reflexivity].
+      apply Nat.leb_le in E1. exfalso. apply D. unfold row in *. cbn [length] in *. lia.
+Qed.
